@@ -11,7 +11,9 @@ for f in selftest/mutants/*.diff; do
   if ! git -C /repo apply <(tail -n +2 $f) 2>/dev/null; then echo "$n: PATCH-FAILED"; continue; fi
   for p in $props; do
     if ! grep -q "\"$p\"" lib/props.py; then echo "$n $p: NO-CHECK"; continue; fi
+    cp evidence/$p.json /tmp/run_mut.ev 2>/dev/null   # evidence must describe the unchanged tree: keep it
     out=$(./check $p $TIER 2>&1); rc=$?
+    cp /tmp/run_mut.ev evidence/$p.json 2>/dev/null
     nv=$(echo "$out" | grep -c '^VIOLATION')
     first=$(echo "$out" | grep -A1 '^VIOLATION' | sed -n 2p | cut -c1-160)
     echo "$n $p: rc=$rc violations=$nv $first"
